@@ -162,7 +162,11 @@ def eager_integrate_gaussianmixture(log_measure, integrand, reduced_vars):
     real_vars = frozenset(v for v in reduced_vars if v.dtype == "real")
     if reduced_vars <= real_vars:
         discrete, gaussian = log_measure.terms
-        return discrete.exp() * Integrate(gaussian, integrand, reduced_vars)
+        result = discrete.exp() * Integrate(gaussian, integrand, reduced_vars)
+        if log_measure.reduced_vars:
+            # the mixture's own logaddexp reduction becomes a sum outside the integral
+            result = result.reduce(ops.add, log_measure.reduced_vars)
+        return result
     return None
 
 
